@@ -576,6 +576,10 @@ func (p *Parser) ParseContext(ctx context.Context, tokens []token.Token) (*ast.A
 
 		// Skip semicolons between statements
 		if p.isType(models.TokenTypeSemicolon) {
+			if err := p.checkStrictEmptySemicolon(); err != nil {
+				ast.ReleaseAST(result)
+				return nil, err
+			}
 			p.advance()
 			continue
 		}
@@ -597,6 +601,9 @@ func (p *Parser) ParseContext(ctx context.Context, tokens []token.Token) (*ast.A
 	// Check if we got any statements
 	if len(result.Statements) == 0 {
 		ast.ReleaseAST(result)
+		if err := p.checkStrictEmpty(); err != nil {
+			return nil, err
+		}
 		return nil, goerrors.IncompleteStatementError(p.currentLocation(), "")
 	}
 
